@@ -421,6 +421,9 @@ func DrawConforming(t *rapid.T, o GenOpt) Case {
 			c.Links[i].Pol = nil // statements drawn for the earlier arguments do not apply any more
 		}
 	}
+	if rapid.IntRange(0, 3).Draw(t, "readerloader") == 2 {
+		c.ReaderLoader = true
+	}
 	if rapid.IntRange(0, 3).Draw(t, "reseal") == 1 {
 		for i := range c.Links {
 			c.Links[i].Reseal = rapid.IntRange(0, 3).Draw(t, "reseal_n")
@@ -467,7 +470,7 @@ func otherPrin(t *rapid.T, label string, avoid ...int) int {
 // PrincipalDeviations lists the deviation kinds of C01.
 var PrincipalDeviations = []string{"rewire-aud", "rewire-iss", "subject-other", "subject-undef", "last-not-root",
 	"foreign-root", "foreign-root-suffix", "subject-other-run", "root-in-audience", "swap", "duplicate", "truncate-root", "truncate-leaf", "missing", "loader-error",
-	"empty", "wrong-invoker", "inv-subject-other", "reverse", "rotate", "near-twin-aud", "near-twin-sub", "near-twin-inv-sub"}
+	"empty", "wrong-invoker", "inv-subject-other", "reverse", "rotate", "near-twin-aud", "near-twin-sub", "near-twin-inv-sub", "foreign-proof", "foreign-proof"}
 
 // ApplyPrincipalDeviation mutates c in place with one labelled deviation at a drawn position.
 func ApplyPrincipalDeviation(t *rapid.T, c *Case, kind string) {
@@ -574,6 +577,10 @@ func ApplyPrincipalDeviation(t *rapid.T, c *Case, kind string) {
 			c.Inv.Sub += tw
 		}
 		label = fmt.Sprintf("%s(kind%d)@%d/%d", kind, tw/100, pos, n)
+	case "foreign-proof":
+		c.ForeignProof = 1 + rapid.IntRange(0, n).Draw(t, "foreignpos")
+		c.ReaderLoader = rapid.IntRange(0, 2).Draw(t, "foreignreader") > 0
+		label = fmt.Sprintf("%s@%d/%d(reader=%v)", kind, c.ForeignProof-1, n, c.ReaderLoader)
 	case "reverse":
 		// the whole proof list the other way round (root first, as older UCAN versions listed it)
 		if n < 2 {
